@@ -20,6 +20,9 @@ type Lit struct {
 	Raw     string // as printed
 	Dec     string // decoded (== Raw except for strings)
 	Comment string // enum item comment (inline list only)
+	// Earlier: a comment written after the item but BEFORE its comma, when Comment itself follows the comma — two
+	// comments after one item (V8c): the item carries the later one, Comment. Only set together with Comment.
+	Earlier string
 }
 
 type Alt struct { // one alternative of an `or` rule
@@ -32,6 +35,7 @@ type Rule struct {
 	Form  string // lit | enumList | enumName | or | allOfStr | allOfList
 	Val   Lit    // lit
 	Items []Lit  // enumList
+	Lead  string // enumList: a comment between `[` and the first item (V8c): belongs to no item, appears nowhere
 	Ref   string // enumName: "@E1"
 	Alts  []Alt
 	Names []string // allOf
@@ -317,6 +321,10 @@ func (g *gen) enumItems(must Lit, comments bool) []Lit {
 				if strings.Contains(items[i].Comment, "#") {
 					g.stat("enum_item_comment_hash")
 				}
+				if i < len(items)-1 && g.r.Intn(6) == 0 {
+					items[i].Earlier = g.itemComment()
+					g.stat("enum_item_two_comments")
+				}
 			}
 		}
 	}
@@ -345,7 +353,33 @@ func (g *gen) enumRule(must Lit, allowComments bool) *Rule {
 		return &Rule{Name: "enum", Form: "enumName", Ref: name}
 	}
 	g.stat("rule_enum_inline")
-	return &Rule{Name: "enum", Form: "enumList", Items: g.enumItems(must, allowComments)}
+	x := &Rule{Name: "enum", Form: "enumList", Items: g.enumItems(must, allowComments)}
+	if allowComments && g.r.Intn(6) == 0 {
+		x.Lead = g.itemComment()
+		g.stat("enum_comment_before_first_item")
+	}
+	// layout classes of the list (which items carry a comment): the k-th comment belongs to the item it follows,
+	// not to the k-th item — visible exactly when an item without a comment precedes one with a comment
+	nc, gap := 0, false
+	for i, it := range x.Items {
+		if it.Comment != "" {
+			nc++
+			if nc <= i {
+				gap = true
+			}
+		}
+	}
+	switch {
+	case nc == 0:
+		g.stat("enum_list_no_comments")
+	case nc == len(x.Items):
+		g.stat("enum_list_every_item_commented")
+	case gap:
+		g.stat("enum_list_comment_after_uncommented_item")
+	default:
+		g.stat("enum_list_only_first_items_commented")
+	}
+	return x
 }
 
 // numeric bound rules around value v (hundredths); intOnly: bounds printed without fraction must stay exact
@@ -816,7 +850,17 @@ func (p *printer) ruleValue(x *Rule, multi bool) string {
 		return x.Ref
 	case "enumList":
 		var sb strings.Builder
+		// blank: in a multi-line annotation one line break in four is followed by one or two blank lines
+		blank := func() string {
+			if multi && p.r.Intn(4) == 0 {
+				return p.sp() + p.nl + []string{"", p.sp() + p.nl}[p.r.Intn(2)] + p.sp()
+			}
+			return ""
+		}
 		sb.WriteString("[" + p.brk(multi))
+		if x.Lead != "" {
+			sb.WriteString("//" + p.sp() + x.Lead + p.nl + p.sp() + blank())
+		}
 		for i, it := range x.Items {
 			sb.WriteString(it.Raw + p.sp())
 			last := i == len(x.Items)-1
@@ -824,13 +868,19 @@ func (p *printer) ruleValue(x *Rule, multi bool) string {
 				if !last {
 					sb.WriteString("," + p.sp())
 				}
-				sb.WriteString(p.brk(multi))
+				if b := p.brk(multi); b != "" && strings.HasPrefix(b, p.nl) {
+					sb.WriteString(b + blank())
+				} else {
+					sb.WriteString(b)
+				}
 				continue
 			}
 			// the comment follows its item: after the comma, before the comma (which then opens the next line), or
 			// on a line of its own; it ends with the line
-			cm := "//" + p.sp() + it.Comment + p.nl + p.sp()
+			cm := "//" + p.sp() + it.Comment + p.nl + p.sp() + blank()
 			switch {
+			case it.Earlier != "": // two comments after one item: before and after its comma (never last)
+				sb.WriteString([]string{"", p.nl + p.sp()}[p.r.Intn(2)] + "//" + p.sp() + it.Earlier + p.nl + p.sp() + blank() + "," + p.sp() + cm)
 			case !last && p.r.Intn(4) == 0:
 				sb.WriteString(cm + "," + p.brk(multi))
 			case p.r.Intn(5) == 0:
@@ -885,6 +935,9 @@ func needsMulti(rs []*Rule) bool {
 			if it.Comment != "" {
 				return true
 			}
+		}
+		if x.Lead != "" {
+			return true
 		}
 		for _, a := range x.Alts {
 			if needsMulti(a.Rules) {
